@@ -18,16 +18,28 @@ static trompeloeil::reporter_func make_reporter(int gen);
 static trompeloeil::ok_reporter_func make_ok_reporter(int gen);
 trompeloeil::reporter_func make_reporter_fwd(int gen) { return make_reporter(gen); }
 trompeloeil::ok_reporter_func make_ok_reporter_fwd(int gen) { return make_ok_reporter(gen); }
+// the violation reporter is a function object with state of its own (how often it was invoked): the object handed back by a
+// later set_reporter must be the installed one, state included - not a copy made at installation or per report
+struct RepFn {
+  int gen; long count;
+  void operator()(trompeloeil::severity s, char const* file, unsigned long line, std::string const& msg);
+};
 static trompeloeil::reporter_func make_reporter(int gen) {
-  return [gen](trompeloeil::severity s, char const* file, unsigned long line, std::string const& msg) {
+  if (g_world) g_world->delivered[gen] = 0;
+  return RepFn{gen, 0};
+}
+void RepFn::operator()(trompeloeil::severity s, char const* file, unsigned long line, std::string const& msg) {
+  {
     bool fatal = s == trompeloeil::severity::fatal;
+    bool probe = std::string(file ? file : "") == "probe";   // the harness identifying a returned callable: not a report
+    if (!probe) { ++count; if (g_world) ++g_world->delivered[gen]; }
     if (g_world) g_world->raw.push_back({fatal, file ? file : "", line, msg, gen, g_world->depth});
     // the armed reporter (user code) stands down when a sequence violation is reported: the end-of-life report of an expectation
     // named in one is the single place where the statements leave the answer open, and the harness does not build on an open answer
     if (fatal && g_world && msg.rfind("Sequence mismatch", 0) == 0) g_world->armed = 0;
     if (fatal) throw Fatal{};
     if (g_world && std::string(file ? file : "") != "probe") g_world->fire_armed();  // user code in the reporter (OP_ARM_REPORTER)
-  };
+  }
 }
 static trompeloeil::ok_reporter_func make_ok_reporter(int gen) {
   return [gen](char const* msg) {
@@ -95,6 +107,7 @@ std::string World::call_fn(int obj, int fn, int a1, int a2) {
         return "ref:?";
       }
       case SV1: return "s:" + x.sv(a1);
+      case Z0: return "r:" + std::to_string(x.z());
       case CF1: { const auto& cx = x; return "r:" + std::to_string(cx.f(a1)); }
       case CR1: {
         const int& r = x.cr(a1);
@@ -125,12 +138,19 @@ void World::install_reporter(int gen, bool pair, std::string* prev_desc) {
     return g;
   };
   std::ostringstream d;
+  long want[8]; for (int i = 0; i < 8; ++i) want[i] = delivered[i];   // per generation: reports delivered since it was installed
+  auto state_ok = [&](trompeloeil::reporter_func& f) {
+    RepFn* r = f.target<RepFn>();
+    return r && r->gen >= 0 && r->gen < 8 && r->count == want[r->gen];
+  };
   if (pair) {
     auto prev = trompeloeil::set_reporter(make_reporter(gen), make_ok_reporter(gen));
-    d << "prev=" << probe_rep(prev.first) << ',' << probe_ok(prev.second);
+    bool ok = state_ok(prev.first);
+    d << "prev=" << probe_rep(prev.first) << ',' << probe_ok(prev.second) << (ok ? "" : " returned-reporter-is-not-the-installed-object");
   } else {
     auto prev = trompeloeil::set_reporter(make_reporter(gen));
-    d << "prev=" << probe_rep(prev);
+    bool ok = state_ok(prev);
+    d << "prev=" << probe_rep(prev) << (ok ? "" : " returned-reporter-is-not-the-installed-object");
   }
   *prev_desc = d.str();
 }
@@ -309,6 +329,7 @@ static std::vector<std::string> split_lines(const std::string& s) {
 static std::string mk_render(int mk, int k) {
   switch (mk) {
     case MK_ANY: return " matching _";
+    case MK_ANYM: return " matching ANY(int)";
     case MK_EQ: case MK_VAL: return " == " + std::to_string(k);
     case MK_LT: return " < " + std::to_string(k);
     case MK_NE: return " != " + std::to_string(k);
@@ -331,7 +352,7 @@ static bool parse_actual_params(const std::vector<std::string>& lines, size_t fr
 static bool expected_params_ok(const World& w, int slot, const std::vector<std::string>& lines, size_t from) {
   const Shape& sh = g_shapes[w.eop[slot].shape];
   std::vector<std::string> want;
-  want.push_back("  param  _1" + mk_render(sh.mk1, w.eop[slot].k1));
+  if (sh.fn != Z0) want.push_back("  param  _1" + mk_render(sh.mk1, w.eop[slot].k1));
   if (sh.fn == F2) want.push_back("  param  _2" + mk_render(sh.mk2, w.eop[slot].k2));
   if (lines.size() - from != want.size()) return false;
   for (size_t i = 0; i < want.size(); ++i) if (lines[from + i] != want[i]) return false;
@@ -357,6 +378,7 @@ Report parse_report(const World& w, const RawReport& r) {
     else if (head == "r with signature int&(int) with.") fn = R1;
     else if (head == "cr with signature const int&(int) with.") fn = CR1;
     else if (head == "sv with signature std::string(int) with.") fn = SV1;
+    else if (head == "z with signature int() with.") fn = Z0;
     size_t i = 1; while (i < lines.size() && lines[i].compare(0, 8, "  param ") == 0) ++i;
     std::string args; bool ok = parse_actual_params(lines, 1, i, &args);
     d << "fn=" << fn << " args=" << (ok ? args : "?") << ' ';
